@@ -36,6 +36,11 @@ def bases(seed):
         {"op": "mul", "l": [["V", 0, 1], ["V", 1, 1]], "r": [["1", 0, 2]]},
         {"op": "con", "lc": [["O", 0, 1], ["V", 0, -2], ["V", 1, -2]]},
         {"op": "commit", "v": 0, "vb": 0}]}})
+    # G: a randomized closure is registered but contributes nothing (a size-generic gadget at a degenerate size): only the phase separator tells
+    out.append({"id": "G", "gates": 1, "p": {"label": "verif", "pre": [], "cap": 1, "cbs": [[]], "ops": [
+        {"op": "commit", "v": 2, "vb": 3}, {"op": "commit", "v": 5, "vb": 1},
+        {"op": "mul", "l": [["V", 0, 1]], "r": [["V", 1, 1]]}, {"op": "defer", "cb": 0},
+        {"op": "con", "lc": [["O", 0, 1], ["V", 0, 1]], "fix": 1}, {"op": "commit", "v": 7, "vb": 4}]}})
     for b in out:
         b["seed"] = seed + ord(b["id"])
     return out
@@ -86,7 +91,12 @@ def deviations(b):
             v = side(); v["ops"][a_], v["ops"][b_] = v["ops"][b_], v["ops"][a_]; devs.append(("commit-transposed-%d-%d" % (a_, b_), v, "reject"))
     v = side(); v["pc"] = {"bb": 3}; devs.append(("blinding-base", v, "reject"))
     v = side(); v["pc"] = {"b": 3}; devs.append(("value-base", v, "reject" if b["gates"] >= 1 else ""))
-    if p["cbs"]:
+    # the one-phase / two-phase context: a closure that contributes nothing, registered on one side only
+    if not p["cbs"]:
+        v = side(); v["cbs"] = [[]]; v["ops"].append({"op": "defer", "cb": 0}); devs.append(("closure-extra-empty", v, "reject"))
+    elif all(len(cb) == 0 for cb in p["cbs"]):
+        v = side(); v["cbs"] = []; v["ops"] = [o for o in v["ops"] if o["op"] != "defer"]; devs.append(("closure-missing-empty", v, "reject"))
+    if p["cbs"] and any(p["cbs"]):
         # the verifier's closure fails with an error of its own: verify hands that error back (and accepts nothing)
         v = side(); v["cbs"][0].append({"op": "fail"}); devs.append(("closure-fails", v, "GadgetError"))
     return devs
